@@ -80,7 +80,87 @@ fn main() {
         "check" if args.len() >= 4 => check(&args[2], &args[3]),
         "replay" if args.len() >= 3 => replay(&PathBuf::from(&args[2])),
         "digest" if args.len() >= 4 => digest(&args[2], args[3].parse().unwrap_or(1000)),
+        // helpers used by ./check when a batch dies by a signal (abort, stack overflow):
+        "one" if args.len() >= 6 => one(&args[2], &args[3], &args[4], args[5].parse().unwrap_or(0)),
+        "abort-replay" if args.len() >= 6 => abort_replay(&args[2], &args[3], &args[4], args[5].parse().unwrap_or(0)),
         _ => usage(),
+    }
+}
+
+/// Execute exactly one run (same plan as in the batch); exit 0 unless the process dies.
+fn one(property: &str, tier: &str, simname: &str, run: u64) {
+    let seed = verif_seed();
+    let thorough = tier == "thorough";
+    if let Some(sim) = simulators_for(property, thorough).into_iter().find(|s| s.name() == simname) {
+        let out = sim.run_one(seed, run);
+        println!("run {run}: {} violation(s)", out.violations.len());
+    }
+    std::process::exit(0);
+}
+
+/// Write a replay file for a run that kills the process (no in-process minimisation is possible).
+fn abort_replay(property: &str, tier: &str, simname: &str, run: u64) {
+    let seed = verif_seed();
+    let thorough = tier == "thorough";
+    let Some(sim) = simulators_for(property, thorough).into_iter().find(|s| s.name() == simname) else {
+        std::process::exit(2);
+    };
+    let path = write_replay(&ReplayFile {
+        format: 1,
+        property: property.to_string(),
+        simulator: simname.to_string(),
+        seed,
+        run,
+        minimised: false,
+        original_steps: 0,
+        violation: Violation {
+            property: property.to_string(),
+            oracle: "ABORT".into(),
+            site: "process-killed".into(),
+            step: usize::MAX,
+            detail: "executing this plan kills the process (abort: allocation failure, stack overflow or double panic) instead of returning".into(),
+        },
+        plan: sim.plan_json(seed, run),
+    });
+    println!("{}", path.display());
+    std::process::exit(0);
+}
+
+thread_local! {
+    static WORKER_SLOT: std::cell::Cell<usize> = const { std::cell::Cell::new(usize::MAX) };
+}
+static NEXT_SLOT: std::sync::atomic::AtomicUsize = std::sync::atomic::AtomicUsize::new(0);
+
+/// Records which run each worker is executing right now, so that ./check can find the run that
+/// killed the process. One 8-byte slot per worker thread in $RSBDD_DST_INFLIGHT.<simulator>.
+struct Inflight {
+    file: Option<std::fs::File>,
+}
+
+impl Inflight {
+    fn new(simname: &str) -> Self {
+        let file = std::env::var("RSBDD_DST_INFLIGHT").ok().and_then(|p| {
+            let f = std::fs::OpenOptions::new().create(true).write(true).truncate(true).open(format!("{p}.{simname}")).ok()?;
+            use std::os::unix::fs::FileExt;
+            for i in 0..64u64 {
+                let _ = f.write_at(&u64::MAX.to_le_bytes(), i * 8);
+            }
+            Some(f)
+        });
+        NEXT_SLOT.store(0, std::sync::atomic::Ordering::SeqCst);
+        Self { file }
+    }
+    fn record(&self, run: u64) {
+        if let Some(f) = &self.file {
+            use std::os::unix::fs::FileExt;
+            let slot = WORKER_SLOT.with(|s| {
+                if s.get() == usize::MAX {
+                    s.set(NEXT_SLOT.fetch_add(1, std::sync::atomic::Ordering::SeqCst) % 64);
+                }
+                s.get()
+            });
+            let _ = f.write_at(&run.to_le_bytes(), slot as u64 * 8);
+        }
     }
 }
 
@@ -126,7 +206,11 @@ fn check(property: &str, tier: &str) {
             .ok()
             .and_then(|s| s.parse::<u64>().ok())
             .unwrap_or_else(|| sim.runs(thorough));
-        let batch = run_batch(runs, worker_count(), wall_cap, &|r| sim.run_one(seed, r));
+        let inflight = Inflight::new(sim.name());
+        let batch = run_batch(runs, worker_count(), wall_cap, &|r| {
+            inflight.record(r);
+            sim.run_one(seed, r)
+        });
         println!(
             "[{}] runs={} nontrivial-distinct={} states={} ticks={} violating-runs={} classes={} wall={:.1}s",
             sim.name(),
